@@ -73,5 +73,5 @@ CHECKS["C18"] = {"engine": "E4/E5 artefact and constructor grids", "technique": 
     "text": "~800 tuples: every listed ill-formed case must raise at creation, every documented legal value (incl. boundaries) must be accepted and the problem must still initialise; every rejected single-element case is followed in the same problem by its well-formed variant under the same name (a rejected attempt leaves nothing behind); every program of the other checks' alphabets (~7000 in the quick tier) must build and initialise",
     "note": "the accept/reject predicate is transcribed from the property statement; unlisted corners are UNSPEC and only counted"}
 CHECKS["C19"] = {"engine": "E1 schedule-space explorer", "technique": "E1 decides emptiness of the box; debug runs parsed; the named subset re-explored by E1",
-    "text": "~950 (quick) programs, two thirds infeasible: every constraint named by the debug diagnosis is a constraint of the problem and the problem with ONLY the named constraints has an empty box (explored exhaustively); debug and plain verdicts agree; debug runs of feasible programs return members of A(P); the diagnosis of a second solve() on the same solver object is judged by the same rule",
-    "note": _N}
+    "text": "~950 (quick) programs, two thirds infeasible: every constraint named by the debug diagnosis is a constraint of the problem and the problem with ONLY the named constraints has an empty box (explored exhaustively); debug and plain verdicts agree; debug runs of feasible programs return members of A(P); the diagnosis of a second solve() on the same solver object, and of a plain and a second debug solver created on the same problem after a first debug solver was asked, is judged by the same rule; objectives next to the conflict under the incremental optimiser",
+    "note": _N + "; the cell debug=True x optimizer='optimize' x infeasible is NOT explored (z3.Optimize unsat-core extraction kills long-lived interpreters; DESIGN 12.13)"}
